@@ -278,7 +278,7 @@ where T: Ring + Bridge, for<'x> &'x T: RingOps<T> {
 }
 
 pub fn run(ctx: &mut Ctx) {
-    let n = ctx.by_tier(30_000u64, 4_000_000);
+    let n = ctx.by_tier(90_000u64, 4_000_000);
     macro_rules! poly { ($x:ty, $t:ty) => { ctx.random_cases(&format!("{}/{}", <$x as MonoKind>::kname(), <$t as Bridge>::name()), n, |c, r| history::<$x, $t>(c, r)); }; }
     poly!(Var<'x', usize>, i64);
     poly!(Var<'x', usize>, FF<3>);
